@@ -820,7 +820,7 @@ func (e *Engine) findIndicesBoundedBacktrackerAt(haystack []byte, at int) (int, 
 				}
 				return e.pikeSearchWithSlotTableAt(haystack, at, nfa.SearchModeFind)
 			}
-			start, end, found := e.asciiBoundedBacktracker.Search(remaining)
+			start, end, found := e.asciiBTSearch(remaining)
 			if found {
 				return at + start, at + end, true
 			}
@@ -1284,14 +1284,14 @@ func (e *Engine) findIndicesBoundedBacktrackerAtWithState(haystack []byte, at in
 				maxInput := e.asciiBoundedBacktracker.MaxInputSize()
 				if maxInput > 0 && len(remaining) > maxInput {
 					window := remaining[:maxInput]
-					start, end, found := e.asciiBoundedBacktracker.Search(window)
+					start, end, found := e.asciiBoundedBacktracker.SearchWithState(window, state.backtracker)
 					if found {
 						return at + start, at + end, true
 					}
 				}
 				return state.pikevm.SearchWithSlotTableAt(haystack, at, nfa.SearchModeFind)
 			}
-			start, end, found := e.asciiBoundedBacktracker.Search(remaining)
+			start, end, found := e.asciiBoundedBacktracker.SearchWithState(remaining, state.backtracker)
 			if found {
 				return at + start, at + end, true
 			}
